@@ -2,7 +2,7 @@
    check.  Only ExtrOcamlBasic is used: bool, option, unit, list, prod, sumbool map to OCaml's own;
    nat, N, positive, ascii and string stay as the extracted inductive datatypes. *)
 From Coq Require Import Extraction ExtrOcamlBasic.
-From RtcpV Require Import Model.Run Model.Hist Spec.Views Spec.Ref Spec.Final.
+From RtcpV Require Import Model.Run Model.RunHelper Model.Hist Spec.Views Spec.Ref Spec.Final.
 
 Extraction Language OCaml.
 Set Extraction KeepSingleton.
@@ -10,4 +10,5 @@ Set Extraction KeepSingleton.
 Extraction "model.ml"
   run_parse run_build run_build_chunk run_build_item m_calc chunk_calc item_calc
   spec_build2 spec_parse2 spec_chunk spec_item run_hist chunk_of_hist final_config
+  run_helper_pad run_helper_hdr run_helper_chk
   N.of_nat N.to_nat N.add N.mul.
